@@ -156,4 +156,26 @@ def posOf (t : Text) (off : Nat) : Nat × Nat := posOfAux off 1 1 t
 
 def zipIdx {α} (l : List α) : List (Nat × α) := (List.range l.length).zip l
 
+/-- `str::split(sep)` -/
+def splitOn (sep : Char) : Text → List Text
+  | [] => [[]]
+  | c :: cs =>
+    if c = sep then [] :: splitOn sep cs
+    else match splitOn sep cs with
+      | [] => [[c]]
+      | l :: ls => (c :: l) :: ls
+
+/-- `PathBuf` equality is by components: repeated `/` and `.` components (not the first) collapse,
+    a trailing `/` is ignored -/
+def pathComponents (p : Text) : List Text :=
+  let parts := splitOn '/' p
+  let root : List Text := if startsWith ['/'] p then [['/']] else []
+  let comps := (zipIdx parts).filterMap (fun (i, c) =>
+    if c.isEmpty then none
+    else if c = ['.'] && (i > 0) then none
+    else some c)
+  root ++ comps
+
+def pathEq (a b : Text) : Bool := pathComponents a = pathComponents b
+
 end Bw
